@@ -286,6 +286,10 @@ class SpecMixin:
         if name == 'ite':
             from .goexec import ite
             return ite(self.sev(env, args[0]), self.sev(env, args[1]), self.sev(env, args[2]))
+        if name == 'trunc':    # truncation toward zero of a real
+            a = self.sev(env, args[0])
+            if z3.is_real(a): return z3.If(a >= 0, z3.ToInt(a), -z3.ToInt(-a))
+            return a
         if name == 'tdiv':     # Go's truncated division on mathematical integers
             a, b = self.sev(env, args[0]), self.sev(env, args[1])
             return z3.If(b > 0, z3.If(a >= 0, a / b, -((-a) / b)), z3.If(a >= 0, -(a / (-b)), (-a) / (-b)))
